@@ -6,7 +6,9 @@
       every tx's (code, data, gas wanted, gas used), validator updates) — equal ids iff equal bytes;
     - [OStored l]: a byte-order-sensitive stored list that is rebuilt from a Go map (Sudoers.Contracts),
       as order-preserving ids;
-    - [OSelectors l]: the 4-byte ids of one precompile ABI (methodById ranges over a Go map of methods). *)
+    - [OSelectors l]: the 4-byte ids of one precompile ABI (methodById ranges over a Go map of methods);
+    - [ORange rs]: the key sequences that consumers with DIFFERENT wall clocks (no delay, short delays, one long stall
+      between two receives) received from `for k := range om.Range()` over the same SortedMap. *)
 From Coq Require Import List Bool Arith ZArith Lia Sorting.Sorted.
 Import ListNotations.
 Require Import Nib.C01.Model.
@@ -14,7 +16,8 @@ Require Import Nib.C01.Model.
 Inductive obs :=
 | ODiff (t : list (list nat))
 | OStored (l : list Z)
-| OSelectors (l : list Z).
+| OSelectors (l : list Z)
+| ORange (rs : list (list Z)).
 
 (** every replica produced the same sequence *)
 Definition replicas_agree (t : list (list nat)) : Prop :=
@@ -29,7 +32,24 @@ Definition P (o : obs) : Prop :=
   | ODiff t => replicas_agree t
   | OStored l => canonical l
   | OSelectors l => NoDup l
+  | ORange rs => forall r r', In r rs -> In r' rs -> r = r'
   end.
+
+Fixpoint zlist_eqb (a b : list Z) : bool :=
+  match a, b with
+  | [], [] => true
+  | x :: a', y :: b' => (x =? y)%Z && zlist_eqb a' b'
+  | _, _ => false
+  end.
+
+Lemma zlist_eqb_eq a b : zlist_eqb a b = true -> a = b.
+Proof.
+  revert b; induction a as [|x a IH]; intros [|y b] H; simpl in H; try discriminate; auto.
+  apply andb_true_iff in H as [H1 H2]. apply Z.eqb_eq in H1. subst. f_equal. auto.
+Qed.
+
+Definition zagree_b (t : list (list Z)) : bool :=
+  match t with [] => true | r0 :: rs => forallb (zlist_eqb r0) rs end.
 
 Fixpoint list_eqb (a b : list nat) : bool :=
   match a, b with
@@ -61,6 +81,7 @@ Definition Pb (o : obs) : bool :=
   | ODiff t => agree_b t
   | OStored l => canonical_b l
   | OSelectors l => nodup_b l
+  | ORange rs => zagree_b rs
   end.
 
 Lemma agree_b_sound t : agree_b t = true -> replicas_agree t.
@@ -69,6 +90,15 @@ Proof.
   rewrite forallb_forall in H.
   assert (E : forall x, r0 = x \/ In x rs -> x = r0).
   { intros x [->|Hx]; auto. symmetry. apply list_eqb_eq. auto. }
+  rewrite (E r Hr), (E r' Hr'). reflexivity.
+Qed.
+
+Lemma zagree_b_sound t : zagree_b t = true -> forall r r', In r t -> In r' t -> r = r'.
+Proof.
+  destruct t as [|r0 rs]; intros H r r' Hr Hr'; simpl in *; [contradiction|].
+  rewrite forallb_forall in H.
+  assert (E : forall x, r0 = x \/ In x rs -> x = r0).
+  { intros x [->|Hx]; auto. symmetry. apply zlist_eqb_eq. auto. }
   rewrite (E r Hr), (E r' Hr'). reflexivity.
 Qed.
 
@@ -106,4 +136,5 @@ Proof.
   - apply agree_b_sound.
   - apply canonical_b_sound.
   - apply nodup_b_sound.
+  - apply zagree_b_sound.
 Qed.
